@@ -138,6 +138,9 @@ func enumerate(ctx *seq.Ctx) {
 		if ctx.Stop() {
 			return
 		}
+		if os.Getenv("C16_SKIP_INVALID") != "" {
+			break // debug only: try the groups behind the (large) invalid side on their own
+		}
 		b := &bases[bi]
 		root, perr := parseYAML(b.text)
 		ctx.Group("base/" + b.family)
